@@ -930,6 +930,7 @@ func TestCyclic(t *testing.T) {
 
 func TestReplay(t *testing.T) {
 	ev.R().RunReplays(t, map[string]ev.ReplayFunc{
+		"redeclared": replayRedecl,
 		"print": func(raw json.RawMessage) *ev.Failure {
 			var c Case
 			if err := json.Unmarshal(raw, &c); err != nil {
